@@ -251,18 +251,17 @@ var KeyNotSymbol = fmt.Errorf("key is not a symbol")
 func (h *SexpHash) TypeCheckField(key Sexp, val Sexp) error {
 	//Q("in TypeCheckField, key='%v' val='%v'", key.SexpString(nil), val.SexpString(nil))
 
-	var keySym *SexpSymbol
-	wasSym := false
-	switch ks := key.(type) {
-	case *SexpSymbol:
-		keySym = ks
-		wasSym = true
-	default:
-		return KeyNotSymbol
-	}
+	// a key that is not a symbol cannot name a declared field. Plain
+	// hashes take any key (the caller tolerates KeyNotSymbol); for an
+	// instance of a declared struct it is a field that does not exist,
+	// see below.
+	keySym, wasSym := key.(*SexpSymbol)
 	p := h.GoStructFactory
 	if p == nil {
 		//Q("SexpHash.TypeCheckField() sees nil GoStructFactory, bailing out.")
+		if !wasSym {
+			return KeyNotSymbol
+		}
 		return nil
 	} else {
 		//Q("SexpHash.TypeCheckField() sees h.GoStructFactory = '%#v'", h.GoStructFactory)
@@ -290,8 +289,18 @@ func (h *SexpHash) TypeCheckField(key Sexp, val Sexp) error {
 				p = h.GoStructFactory
 			}
 		} else {
+			if !wasSym {
+				return KeyNotSymbol
+			}
 			return nil
 		}
+	}
+
+	if !wasSym {
+		if h.TypeName != "hash" && h.TypeName != "field" && p != nil && p.UserStructDefn != nil {
+			return fmt.Errorf("%s has no field '%s' [err 2]", p.UserStructDefn.Name, key.SexpString(nil))
+		}
+		return KeyNotSymbol
 	}
 
 	// type-check record updates here, if we are a record with a
